@@ -9,12 +9,16 @@ real descriptors).  The monitor states the property on the decoded bus traffic w
   c57-enumeration               the standard enumeration sequence is answered with the device's descriptors
                                 (taken from `create_descriptors`), SET_ADDRESS / SET_CONFIGURATION complete
   c57-set-line-coding           SETUP ACKed, the 7-byte OUT data stage ACKed, status IN answered with a DATA1 ZLP
-  c57-class-vendor-not-stalled  any other class / vendor / reserved request: no DATA, no ACK, first data-stage IN or
-                                status IN answered STALL
+  c57-class-vendor-not-stalled  EVERY other class request and EVERY vendor / reserved request (whatever bRequest,
+                                recipient, direction, wLength): no DATA, no ACK (data-stage and status-stage OUT
+                                packets included), first data-stage IN or status IN answered STALL
+  c57-class-vendor-state-change address and configuration are unchanged for as long as such a request is the latched one
   c57-rx-order                  bytes of OUT packets the device accepted (ACK, not a retransmission) come out of `rx`
                                 in order, nothing else does
   c57-tx-order                  bytes accepted by `tx` reach the host in order, exactly once (host discards
                                 retransmissions by data toggle)
+"matrix" cases sweep request type x recipient x bRequest x direction x data stage systematically (`request_matrix`),
+before and after enumeration and between bulk transfers.
 "overflow" cases keep the rx consumer stalled while the host fills the receive FIFO and keeps writing (the packets that
 do not fit must be NAKed and must not advance the toggle; an ACKed-and-dropped packet shows up as c57-rx-order).
 """
@@ -31,10 +35,20 @@ from harness.props import devx_util as X
 PROP = "C57"
 LEAN_MODULES = ["LunaVerif.Props.C57"]
 DRIVER = "Driver/C57.lean"
-REQUIRED_THEOREMS = ["acm_enumerates", "set_line_coding_accepted", "other_class_vendor_stalled",
-                     "rx_in_order_partial", "tx_in_order_partial"]
-RULE = ("cases = USBSerialDevice (strings / max packet size 64) x adaptive host script: enumeration, then a random mix of "
-        "SET_LINE_CODING, other class / vendor / reserved requests, standard requests, OUT transfers to endpoint 4 "
+REQUIRED_THEOREMS = ["acm_enumerates", "set_line_coding_accepted", "other_class_vendor_stalled", "vendor_reserved_stalled",
+                     "unsupported_request_stalled", "rx_in_order_partial", "tx_in_order_partial"]
+RULE = ("cases = (a) 'matrix' sessions: ONE request matrix per run, cut into 4 (quick) / 48 (thorough) sessions = the FULL "
+        "cross request type (standard / class / vendor / reserved) x recipient (device / interface / endpoint / other / a "
+        "reserved one) x direction x data stage (none / wLength 7 / another wLength) for every bRequest that ACMRequestHandlers implements (its "
+        "integer class constants, read from acm.py: SET_LINE_CODING 0x20), plus, for the neighbours of those codes (-1, +1, "
+        "+2, +3, ^0x80), the other CDC codes (0x00..0x02, 0x21..0x23), 0xFF and random codes, the cross type (class / vendor "
+        "/ reserved) x direction x data stage with random recipient (thorough: the full cross again); every cell is a clean "
+        "control transfer, a quarter of them before enumeration (address 0, unconfigured), the rest after it, directly "
+        "after bulk IN / bulk OUT transfers, SET_LINE_CODING, status-endpoint polls, and one in five right after an "
+        "abandoned SET_LINE_CODING (SETUP only / SETUP + data); (b) USBSerialDevice (strings / max packet size 64) x "
+        "adaptive host script: enumeration, then a random mix of "
+        "SET_LINE_CODING, other class / vendor / reserved requests (bRequest: half of the time a code the ACM handler "
+        "knows or a neighbour), standard requests, OUT transfers to endpoint 4 "
         "(retransmissions after 'lost' ACKs, corrupted packets, PING, rx consumer draining at random), IN transfers from "
         "endpoint 4 (tx producer chunks of 1..2*mps+3 bytes with and without `last`, lost / corrupted host ACKs, "
         "other devices' transactions in between), polls of the never-fed endpoint 3, SOF, malformed packets; "
@@ -84,6 +98,50 @@ def serial_spec(strings=None):
     sp = {"strings": strings} if strings else {}
     return {"serial": sp, "shape": "acm", "desc": X.serial_descriptor_table(sp), "eps": SERIAL_EPS,
             "handlers": [["acm", 1, 0x20]]}
+
+
+# ----------------------------------------------------------------------------- the request matrix
+ACCEPTED = {(1, 0x20)}            # (type, bRequest) the property names as accepted: CLASS / SET_LINE_CODING
+CDC_CODES = [0x00, 0x01, 0x02, 0x20, 0x21, 0x22, 0x23]       # CDC-PSTN request numbers a serial function may see
+
+
+def acm_known_codes():
+    """bRequest codes `ACMRequestHandlers` implements, read from the real class in the repository under test: its
+    upper-case integer class constants (today SET_LINE_CODING = 0x20 only)."""
+    from luna.gateware.usb.devices.acm import ACMRequestHandlers
+    codes = sorted({v for k, v in vars(ACMRequestHandlers).items()
+                    if k.isupper() and isinstance(v, int) and not isinstance(v, bool) and 0 <= v < 256})
+    return codes or [0x20]
+
+
+def request_matrix(rng, tier):
+    """[[type, recipient, bRequest, dir_in, data], …] (data: 0 = no data stage, 1 = wLength 7, the size of a line coding,
+    2 = another wLength): the full cross type (standard / class / vendor / reserved) x recipient (device / interface /
+    endpoint / other / a reserved one) x direction x data for every code the ACM handler knows; for the neighbours of those codes, the other CDC codes and random codes the
+    cross type (class / vendor / reserved) x direction x data stage with a random recipient (quick) or the full cross
+    (thorough)."""
+    known = acm_known_codes()
+    near = sorted(({(c + d) & 0xFF for c in known for d in (-1, 1, 2, 3)} | {c ^ 0x80 for c in known} | set(CDC_CODES)
+                   | {0xFF}) - set(known))
+    rnd = [c for c in (rng.below(256) for _ in range(4 if tier == "quick" else 24)) if c not in known]
+    out = []
+    for code in known:
+        for t in (0, 1, 2, 3):
+            for rc in (0, 1, 2, 3, None):
+                for d in (0, 1):
+                    for data in (0, 1, 2):
+                        out.append([t, rng.range(4, 31) if rc is None else rc, code, d, data])
+    for code in near + rnd:
+        for t in (1, 2, 3):
+            for d in (0, 1):
+                if tier == "quick":
+                    for data in (0, rng.choice([1, 2])):
+                        out.append([t, rng.choice([0, 1, 1, 2, 3, rng.range(4, 31)]), code, d, data])
+                else:
+                    for rc in (0, 1, 2, 3, None):
+                        for data in (0, 1, 2):
+                            out.append([t, rng.range(4, 31) if rc is None else rc, code, d, data])
+    return rng.shuffle(out)
 
 
 # ----------------------------------------------------------------------------- host
@@ -163,14 +221,93 @@ class SerialHost(X.FullHost):
         elif k == "glc":
             yield from self.simple_transfer(DH.setup_bytes(0xA1, 0x21, 0, 0, 7))
         elif k == "vendor":
-            yield from self.simple_transfer(DH.setup_bytes(rng.choice([0x40, 0xC0, 0x41, 0xC1]), rng.below(256), rng.below(65536),
-                                                           rng.below(65536), rng.choice([0, 0, 4, 64])))
+            yield from self.simple_transfer(DH.setup_bytes(rng.choice([0x40, 0xC0, 0x41, 0xC1, 0x42, 0x43]), self.some_code(),
+                                                           rng.below(65536), rng.below(65536), rng.choice([0, 0, 4, 7, 64])))
         elif k == "reserved":
-            yield from self.simple_transfer(DH.setup_bytes(rng.choice([0x60, 0xE0]), rng.below(256), 0, 0, rng.choice([0, 2])))
+            yield from self.simple_transfer(DH.setup_bytes(rng.choice([0x60, 0xE0, 0x61, 0xE1]), self.some_code(), 0,
+                                                           rng.choice([0, 1]), rng.choice([0, 2, 7])))
         else:
             yield from self.simple_transfer(DH.setup_bytes(rng.choice([0x21, 0xA1, 0x20, 0xA2]),
                                                            rng.choice([0x00, 0x21, 0x22, 0x23, 0x1F, rng.below(256)]),
                                                            rng.below(65536), 0, rng.choice([0, 0, 7, 2])))
+
+    def some_code(self):
+        """a bRequest for a vendor / reserved request: half of the time one the ACM handler knows or a neighbour"""
+        rng = self.rng
+        known = acm_known_codes()
+        return rng.weighted([(3, rng.choice(known)), (2, (rng.choice(known) + rng.choice([-1, 1, 2, 3])) & 0xFF),
+                             (5, rng.below(256))])
+
+    def slc(self):
+        self.tag("req:slc")
+        yield from self.simple_transfer(DH.setup_bytes(0x21, 0x20, 0, self.rng.choice([0, 1]), 7),
+                                        out_data=[0x80, 0x25, 0, 0, 0, 0, 8])
+
+    def matrix_request(self, combo, phase):
+        """one cell of the request matrix, as a clean control transfer; one time in five right after a
+        SET_LINE_CODING transfer the host abandoned after its SETUP or data stage (the ACM handler then has just seen
+        'its' request)"""
+        rng = self.rng
+        t, rc, code, d, data = combo
+        length = 0 if not data else 7 if data == 1 else rng.choice([1, 6, 8, 64, 300] if not d else [1, 6, 8, 64, 255])
+        su = DH.setup_bytes((d << 7) | (t << 5) | rc, code, rng.choice([0, 0, rng.below(65536)]),
+                            rng.choice([0, 1, rng.below(65536)]), length)
+        pre = rng.weighted([(80, "none"), (10, "slc-setup"), (10, "slc-data")])
+        if pre != "none":
+            self.tag("mx:after-abandoned-" + pre)
+            yield ["tok", S, self.addr, 0]
+            r = yield ["data", D0, DH.setup_bytes(0x21, 0x20, 0, 0, 7), 1]
+            if pre == "slc-data" and r.resp.is_hs(ACK):
+                yield ["tok", O, self.addr, 0]
+                yield ["data", D1, [0x80, 0x25, 0, 0, 0, 0, 8], 1]
+        known = code in acm_known_codes()
+        self.tag("mx:%s:type%d:%s" % (phase, t, "known-code" if known else "other-code"))
+        self.tag("mx:type%d:%s:%s:%s" % (t, "req%#04x" % code if known else "other-code", "in" if d else "out",
+                                        ["nodata", "len7", "len-other"][data]))
+        self.tag("mx:recipient%s" % (rc if rc < 4 else "-reserved"))
+        yield from self.simple_transfer(su, out_data=[0x80, 0x25, 0, 0, 0, 0, 8] if length == 7 else None)
+
+    def drain(self):
+        """finish the tx transfer, fetch everything, empty rx"""
+        yield ["produce", 4, [self.rng.below(256)], 1]
+        for _ in range(12):
+            r = yield ["tok", I, self.addr, 4]
+            if r.resp.is_data:
+                yield ["hs", ACK]
+            elif r.resp.is_hs(NAK):
+                break
+        yield ["consume", 4, 400]
+
+    def matrix_script(self, combos):
+        """the request matrix at every point of a session: a quarter of the cells before enumeration (address 0, not
+        configured), the rest after it, with bulk transfers in both directions, SET_LINE_CODING and polls of the
+        status endpoint in between"""
+        rng = self.rng
+        n0 = len(combos) // 4
+        for c in combos[:n0]:
+            yield from self.matrix_request(c, "unenumerated")
+            if rng.chance(8):
+                yield from self.slc()
+        yield from self.enumerate()
+        bulk = False
+        for c in combos[n0:]:
+            yield from self.matrix_request(c, "after-bulk" if bulk else "enumerated")
+            bulk = False
+            k = rng.weighted([(60, "next"), (12, "tx"), (12, "rx"), (8, "slc"), (4, "idle-ep"), (4, "between")])
+            if k == "tx":
+                yield from self.bulk_in(self.tx_ep)
+                bulk = True
+            elif k == "rx":
+                yield from self.bulk_out(self.rx_ep)
+                bulk = True
+            elif k == "slc":
+                yield from self.slc()
+            elif k == "idle-ep":
+                yield ["tok", I, self.addr, 3]
+            elif k == "between":
+                yield from self.between()
+        yield from self.slc()
+        yield from self.drain()
 
     def script(self, n_steps):
         rng = self.rng
@@ -194,15 +331,7 @@ class SerialHost(X.FullHost):
                 yield ["tok", I, self.addr, 3]
             else:
                 yield from self.between()
-        # drain: finish the tx transfer, fetch everything, empty rx
-        yield ["produce", 4, [rng.below(256)], 1]
-        for _ in range(12):
-            r = yield ["tok", I, self.addr, 4]
-            if r.resp.is_data:
-                yield ["hs", ACK]
-            elif r.resp.is_hs(NAK):
-                break
-        yield ["consume", 4, 400]
+        yield from self.drain()
 
     def rx_overflow(self):
         """rx consumer stalled: the host fills the receive FIFO (127 bytes) and keeps writing short packets"""
@@ -309,17 +438,22 @@ def monitor(log, spec, overflow=False):
                             cur["kind"] = "set_address"
                         elif typ == 0 and req == 9:
                             cur["kind"] = "set_configuration"
-                        elif typ == 1 and req == 0x20:
+                        elif (typ, req) in ACCEPTED:
                             cur["kind"] = "slc"
                         elif typ != 0:
+                            # EVERY other class request and EVERY vendor / reserved request, whatever its bRequest,
+                            # recipient, direction and wLength
                             cur["kind"] = "unsupported"
+                            cur["state"] = (log[k - 1].address, log[k - 1].configuration) if k else (0, 0)
             elif tok == (O, 0) and cur is not None and log[k - 1].event[0] == "tok":
                 c = cur
                 if not c["in_data"] and c["length"] and not c["status"]:
                     if c["kind"] == "slc" and ev[3] and not resp.is_hs(ACK):
                         fail(k, "c57-set-line-coding", "the line-coding data packet was not ACKed")
-                    if c["kind"] == "unsupported" and (resp.is_hs(ACK) or resp.is_data):
-                        fail(k, "c57-class-vendor-not-stalled", "OUT data of %r answered" % (c["su"],))
+                # data stage or status stage: an unsupported request never gets an ACK (or DATA) for an OUT packet
+                if c["kind"] == "unsupported" and (resp.is_hs(ACK) or resp.is_data):
+                    fail(k, "c57-class-vendor-not-stalled", "OUT packet of %r answered (%s stage)"
+                         % (c["su"], "status" if c["in_data"] or c["status"] or not c["length"] else "data"))
             elif tok == (O, 4) and log[k - 1].event[0] == "tok":
                 t = 1 if ev[1] == D1 else 0
                 if resp.is_hs(ACK) and ev[3] and t == out_toggle:
@@ -339,6 +473,7 @@ def monitor(log, spec, overflow=False):
         elif kind == "reset":
             if cur:
                 cur["clean"] = False
+                cur.pop("state", None)
         elif kind == "produce" and ev[1] == 4:
             tx_given += list(ev[2][:r.delivered])
         elif kind == "consume" and ev[1] == 4:
@@ -347,6 +482,12 @@ def monitor(log, spec, overflow=False):
                 fail(k, "c57-rx-order", "rx stream delivered %d bytes that are not the prefix of the %d bytes of accepted OUT packets"
                      % (len(rx_seen), len(rx_host)))
                 rx_seen = rx_host[:len(rx_seen)]
+        # a STALLed (unsupported) request changes nothing: address and configuration stay what they were when its
+        # SETUP packet arrived (the streams are covered by c57-rx-order / c57-tx-order, which keep running)
+        if cur is not None and cur.get("state") is not None and (r.address, r.configuration) != cur["state"]:
+            fail(k, "c57-class-vendor-state-change", "address/configuration were %r when %r arrived, now %r"
+                 % (cur["state"], cur["su"], (r.address, r.configuration)))
+            cur["state"] = None
         # tx: did the host take the packet of the previous IN token?
         if last_in4 is not None and k == last_in4 + 1:
             got = (kind == "hs" and ev[1] == ACK) or (kind == "raw" and len(ev[1]) == 1)       # (corrupted) ACK: host has the data
@@ -380,12 +521,17 @@ def monitor(log, spec, overflow=False):
 # ----------------------------------------------------------------------------- cases
 def gen_cases(tier, rng):
     if tier == "quick":
-        n, steps, n_over = 30, 14, 4
+        n, steps, n_over, n_mx = 30, 14, 4, 4
     elif tier == "widen":
-        n, steps, n_over = 100, 20, 6
+        n, steps, n_over, n_mx = 100, 20, 6, 8
     else:
-        n, steps, n_over = 400, 30, 30
+        n, steps, n_over, n_mx = 400, 30, 30, 48
     out = []
+    # the request matrix first (spread over the workers): one matrix per run, cut into n_mx sessions
+    mseed = rng.u64()
+    mtier = "thorough" if tier == "thorough" else "quick"
+    for k in range(n_mx):
+        out.append({"mode": "matrix", "seed": rng.u64(), "mseed": mseed, "mtier": mtier, "part": k, "parts": n_mx, "k": k})
     for k in range(n):
         out.append({"mode": "serial", "seed": rng.u64(), "steps": steps, "k": k})
     for k in range(n_over):
@@ -409,8 +555,14 @@ def run_case(desc):
     else:
         host = SerialHost(rng.fork("host"), spec, tags, overflow=overflow)
 
-        def script(_h):
-            return host.script(desc["steps"])
+        if desc["mode"] == "matrix":
+            combos = request_matrix(Rng(desc["mseed"]), desc["mtier"])[desc["part"]::desc["parts"]]
+
+            def script(_h):
+                return host.matrix_script(combos)
+        else:
+            def script(_h):
+                return host.script(desc["steps"])
     d = dict(desc)
     d["strings"] = strings
     log, hung = X.run_guarded(h, script)
